@@ -340,11 +340,14 @@ func runC12(b *fw.B) {
 func c12View(b *fw.B, k int) {
 	ctx := context.Background()
 	sc := scenario{Family: "gossip", Preset: "minimal", Validators: 64, ForkEpochs: [4]uint64{1, ff, ff, ff}, Participation: []float64{1}}
-	nVariants := 8
+	nVariants := 9
 	if !fw.Quick(b.Tier) {
-		nVariants = 9
+		nVariants = 10
 	}
 	variant := (b.Batch + k) % nVariants
+	if fw.Quick(b.Tier) && variant == 8 {
+		variant = 9 // the mainnet view (8) is for the thorough tier only
+	}
 	switch variant {
 	case 1:
 		sc.ForkEpochs = [4]uint64{1, 2, ff, ff}
@@ -364,6 +367,9 @@ func c12View(b *fw.B, k int) {
 		sc.ForkEpochs = [4]uint64{1, 2, 3, 4} // deneb: epoch-based attestation window, fixed exit domain, blob commitments
 	case 4:
 		sc.Family = "gossip-bigcommittee" // committees of 32 and a sync committee of 128: aggregator selection is not trivial
+		sc.Validators = 256
+	case 9:
+		sc.Family = "gossip-manycommittees" // 16 committees per slot, 128 per epoch: more committees in an epoch than attestation subnets
 		sc.Validators = 256
 	case 5:
 		sc.Family = "gossip-syncboundary" // the head is the last slot of a sync committee period
@@ -386,6 +392,9 @@ func c12View(b *fw.B, k int) {
 		lastSlot = 6*spe - 1
 	case 8:
 		lastSlot = 5*spe + 20
+	case 9:
+		spec.MAX_COMMITTEES_PER_SLOT = 16
+		spec.TARGET_COMMITTEE_SIZE = 2
 	}
 	// in these views the first slot of every epoch from 2 on is empty: the finalized root is a block before the finalized epoch's start slot
 	gapAtEpochStart := variant == 1 || variant == 6 || variant == 7
@@ -824,7 +833,11 @@ func (g *g12) attestationTopics() {
 			if len(committee) < 2 {
 				continue
 			}
+			if cps > 4 && ci != 0 && ci != cps-1 && ci != (s*7+3)%cps {
+				continue // many committees per slot: the first, the last and one in between
+			}
 			subnet := ((s%spe)*cps + ci) % 64
+			g.b.CountIf((s%spe)*cps+ci >= 64, "votes_of_committees_numbered_64_or_more_within_their_epoch")
 			pos := g.b.Rng.IntN(len(committee))
 			honest := g.single(vt, data, []int{pos}, len(committee), []uint64{committee[pos]})
 			v.fresh()
